@@ -336,7 +336,7 @@ Section Calls.
   Proof.
     unfold f_write, file_of, new_handle, win, abs_path.
     cbn [hd_name hd_node hd_dir_infos hd_dir_index hd_mode hd_at hd_dir_names hd_view].
-    rewrite ?(va_osp _ _ Hag), ?(va_osv _ _ Hag). repeat break_match; split; reflexivity.
+    rewrite ?(va_osp _ _ Hag), ?(va_osv _ _ Hag), ?(va_user _ _ Hag). repeat break_match; split; reflexivity.
   Qed.
 
   Theorem read_file_prefix ps : okpath ps ->
